@@ -7,7 +7,8 @@ everything is plain numpy (float64) or a Hypothesis strategy.
 
 Contents
 --------
-data sets      ``dataset(...)`` (strategy -> JSON spec), ``build_points(spec)``
+data sets      ``dataset(...)`` = ``dataset_shape`` + ``dataset_sites`` (strategies ->
+               JSON spec), ``build_points(spec)``
                (spec -> ndarray).  Points are DISTINCT BY CONSTRUCTION: they are
                distinct sites of an integer lattice, optionally moved by a jitter
                of less than a quarter lattice step (float dtypes only).
@@ -21,7 +22,8 @@ clustering     ``ref_assign`` (nearest center, first minimiser), ``ref_cost``
                the checks; ``ref_pam_sweep`` (brute-force PAM sweep used ONLY to
                classify cases: accept/reject history and which of the three
                re-assignment branches an accepted proposal exercised).
-misc           ``pinned_global_rng`` context manager, ``distinct_prob_ok``.
+misc           ``pinned_global_rng`` context manager, ``max_distinct_k``,
+               ``single_thread_kernels``.
 """
 import contextlib
 
@@ -134,9 +136,75 @@ def _uniform_r(d):
     return _UNIFORM_R.get(d, 2)
 
 
+def _capacity(kind, d, nb):
+    """How many distinct sites the layout offers (the strategies use at most ~half of them)."""
+    if kind == "uniform":
+        return (2 * _uniform_r(d) + 1) ** d
+    return nb * (2 * _BLOB_W + 1) ** d
+
+
 @st.composite
-def dataset(draw, max_n=40, max_d=4, min_n=1, dtypes=DTYPES, layouts=LAYOUTS,
-            layout_kinds=("uniform", "blobs")):
+def dataset_shape(draw, max_n=40, max_d=4, min_n=1, dtypes=DTYPES, layouts=LAYOUTS,
+                  layout_kinds=("uniform", "blobs")):
+    """First stage of `dataset`: everything except the sites themselves.
+
+    Split in two so that a check can draw its (small, categorical) configuration
+    BEFORE the bulky list of sites: Hypothesis spends its entropy budget from
+    the front, and choices drawn after a long list come out heavily skewed
+    towards their first alternative."""
+    d = draw(st.integers(1, max_d))
+    kind = draw(st.sampled_from(list(layout_kinds)))
+    # float dtypes are listed twice: they carry the jitter / scale dimensions
+    dtype = draw(st.sampled_from(list(dtypes) + [t for t in dtypes if t in FLOAT_DTYPES]))
+    nb = draw(st.integers(2, min(5, 5 ** d))) if kind == "blobs" else 0
+    cap = _capacity(kind, d, nb)
+    hi = max(min_n, min(max_n, cap // 2 if kind == "uniform" else (6 * cap) // 10))
+    # size classes keep tiny sets (where every index is special) and full-size sets both frequent
+    cls = draw(st.sampled_from(["small", "any", "large", "tiny", "small", "any", "large"]))
+    if cls == "tiny":
+        n = draw(st.integers(min_n, max(min_n, min(hi, 4))))
+    elif cls == "small":
+        n = draw(st.integers(min(hi, max(min_n, 3)), max(min_n, min(hi, 12))))
+    elif cls == "large":
+        n = draw(st.integers(max(min_n, hi // 2), hi))
+    else:
+        n = draw(st.integers(min_n, hi))
+    if dtype in FLOAT_DTYPES:
+        step = draw(st.sampled_from([1.0, 0.37, 1e-3, 250.0]))
+        jitter = draw(st.integers(0, 2 ** 31 - 1)) if draw(st.sampled_from([True, False, True])) else None
+    else:
+        step = draw(st.sampled_from([1, 2]))
+        jitter = None
+    layout = draw(st.sampled_from(list(layouts)))
+    return {"n": n, "d": d, "nb": nb, "step": step, "jitter": jitter, "dtype": dtype,
+            "layout": layout, "kind": kind}
+
+
+@st.composite
+def dataset_sites(draw, shape):
+    """Second stage of `dataset`: draw the n distinct lattice sites for `shape`
+    and return the complete spec."""
+    n, d, kind, nb = shape["n"], shape["d"], shape["kind"], shape["nb"]
+    if kind == "uniform":
+        base = 2 * _uniform_r(d) + 1
+        ids = draw(st.lists(st.integers(0, base ** d - 1), min_size=n, max_size=n, unique=True))
+        sites = [_decode(i, base, d) for i in ids]
+    else:
+        blob_ids = draw(st.lists(st.integers(0, 5 ** d - 1), min_size=nb, max_size=nb, unique=True))
+        blob_sites = [[_BLOB_SPACING * c for c in _decode(b, 5, d)] for b in blob_ids]
+        obase = 2 * _BLOB_W + 1
+        pairs = draw(st.lists(st.integers(0, nb * obase ** d - 1), min_size=n, max_size=n, unique=True))
+        sites = []
+        for p in pairs:
+            b, o = p % nb, p // nb       # distinct p -> distinct (blob, offset); blobs do not overlap (20 > 2*3)
+            off = _decode(o, obase, d)
+            sites.append([blob_sites[b][j] + off[j] for j in range(d)])
+    return {"sites": sites, "step": shape["step"], "jitter": shape["jitter"], "dtype": shape["dtype"],
+            "layout": shape["layout"], "kind": kind}
+
+
+@st.composite
+def dataset(draw, **kw):
     """Strategy for a JSON spec of a data set of DISTINCT points.
 
     spec = {"sites": [[int]*d]*n, "step": number, "jitter": None|int seed,
@@ -151,40 +219,12 @@ def dataset(draw, max_n=40, max_d=4, min_n=1, dtypes=DTYPES, layouts=LAYOUTS,
       geometry that drives the k-medoids update through all its branches.
     * float dtypes: coordinates = (site + jitter) * step with |jitter| < 0.25,
       step in {1, 0.37, 1e-3, 250}; integer dtypes: site * (1 or 2).
+
+    Keyword arguments as for `dataset_shape` (max_n, max_d, min_n, dtypes,
+    layouts, layout_kinds).  Checks that draw further configuration should use
+    the two stages directly: shape -> own configuration -> sites.
     """
-    d = draw(st.integers(1, max_d))
-    kind = draw(st.sampled_from(list(layout_kinds)))
-    dtype = draw(st.sampled_from(list(dtypes)))
-    if kind == "uniform":
-        base = 2 * _uniform_r(d) + 1
-        cap = base ** d
-        n = draw(st.integers(min_n, max(min_n, min(max_n, cap // 2))))
-        ids = draw(st.lists(st.integers(0, cap - 1), min_size=n, max_size=n, unique=True))
-        sites = [_decode(i, base, d) for i in ids]
-    else:
-        coarse_cap = 5 ** d
-        nb = draw(st.integers(2, min(5, coarse_cap)))
-        blob_ids = draw(st.lists(st.integers(0, coarse_cap - 1), min_size=nb, max_size=nb, unique=True))
-        blob_sites = [[_BLOB_SPACING * c for c in _decode(b, 5, d)] for b in blob_ids]
-        obase = 2 * _BLOB_W + 1
-        ocap = obase ** d
-        cap = nb * ocap
-        n = draw(st.integers(min_n, max(min_n, min(max_n, (6 * cap) // 10))))
-        pairs = draw(st.lists(st.integers(0, cap - 1), min_size=n, max_size=n, unique=True))
-        sites = []
-        for p in pairs:
-            b, o = p % nb, p // nb       # distinct p -> distinct (blob, offset); blobs do not overlap (20 > 2*3)
-            off = _decode(o, obase, d)
-            sites.append([blob_sites[b][j] + off[j] for j in range(d)])
-    if dtype in FLOAT_DTYPES:
-        step = draw(st.sampled_from([1.0, 0.37, 1e-3, 250.0]))
-        jitter = draw(st.one_of(st.none(), st.integers(0, 2 ** 31 - 1)))
-    else:
-        step = draw(st.sampled_from([1, 2]))
-        jitter = None
-    layout = draw(st.sampled_from(list(layouts)))
-    return {"sites": sites, "step": step, "jitter": jitter, "dtype": dtype,
-            "layout": layout, "kind": kind}
+    return draw(dataset_sites(draw(dataset_shape(**kw))))
 
 
 def build_points(spec):
@@ -311,6 +351,18 @@ def branch_classes(logs):
 # --------------------------------------------------------------------------
 # misc helpers
 
+def single_thread_kernels():
+    """Limit every loaded OpenMP runtime to one thread (call AFTER importing
+    enspara.cluster).  The clustering checks run thousands of tiny distance
+    calls per second in several shard processes; with the default of one
+    thread per core each call pays a fork/join that is orders of magnitude
+    slower than the arithmetic and the shards oversubscribe the machine.
+    Thread count is C13's dimension, not a dimension of the clustering
+    properties.  Returns the threadpoolctl limiter (kept alive by the caller)."""
+    import threadpoolctl
+    return threadpoolctl.threadpool_limits(limits=1, user_api="openmp")
+
+
 def max_distinct_k(n, floor=1e-3):
     """Largest k such that k uniform draws with replacement from n frames are
     pairwise distinct with probability >= floor.  Cold-start k-medoids redraws
@@ -338,8 +390,10 @@ def pinned_global_rng(seed):
     saved = np.random.get_state()
     orig = np.random.default_rng
 
-    def pinned(seed_arg=None, *a, **k):
-        return orig(seed if seed_arg is None else seed_arg, *a, **k)
+    def pinned(seed_arg=None, **kw):
+        if "seed" in kw:                       # the library calls default_rng(seed=...)
+            seed_arg = kw.pop("seed")
+        return orig(seed if seed_arg is None else seed_arg, **kw)
 
     np.random.seed(int(seed) % (2 ** 32))
     np.random.default_rng = pinned
